@@ -274,6 +274,16 @@ def main(argv=None):
         print("  kind=%s where=%s tags=%s\n  %s" % (sig[1], sig[2], vv[0]['tags'], vv[0]['detail'][:400]))
         reported += 1
 
+    # a check whose oracle never looked at anything is not a passing check (vacuity guard)
+    req = getattr(mod, 'REQUIRED_PROBES', ())
+    if req and len(outs) >= 200:
+        tot = collections.Counter()
+        for o in outs:
+            if o['ok']: tot.update(o.get('probes', {}))
+        for name in req:
+            if tot.get(name, 0) == 0:
+                errors.append("vacuous batch: the probe %r was never hit in %d runs (the oracle did not examine anything)" % (name, len(outs)))
+
     if errors:
         print("HARNESS-ERROR (%d): %s" % (len(errors), errors[0][:300] + " ... " + errors[0][-1200:]), file=sys.stderr)
         if rc == 0: rc = 2
